@@ -12,6 +12,7 @@ with C01 `validate_complete`, C02 and C28).
 import BytomModel.Model.Builder
 import BytomModel.Lemmas.Builder
 import BytomModel.Lemmas.Mux
+import BytomModel.Lemmas.Materialize
 import BytomModel.Props.C26
 
 namespace BytomModel.Props.C27
@@ -280,5 +281,38 @@ example : Balanced [.spend 1 0 1000 false, .spend 1 1 120 false, .control 0 500 
   · have h1' : ¬ 1 = asset := fun x => h1 x.symm
     have h0' : ¬ 0 = asset := fun x => hne x.symm
     simp [h1', h0']
+
+
+/-! ### any quorum of the key holders yields a witness CHECKMULTISIG accepts -/
+
+open BytomModel.Lemmas.Materialize BytomModel.Lemmas.Multisig BytomModel.VM in
+/-- `quorum_subset_witness`: `slots` is the template's `Sigs` array (slot i = signature of key i,
+    empty when that holder has not signed), every non-empty slot verifies under its key. If at
+    least `m` holders signed — ANY `m` of the `n`, in any order of signing — the materialized
+    witness carries exactly `m` signatures and the CHECKMULTISIG matching loop (`matchSigs`,
+    C02 `checkmultisig_iff`) accepts them against the key list. -/
+theorem quorum_subset_witness (verify : Bytes → Bytes → Bool) (m : Nat) (slots keys : List Bytes)
+    (hok : SlotsOK verify slots keys) (hq : m ≤ signedCount slots) :
+    (materializeSigs m slots).length = m ∧
+    Embeds verify (materializeSigs m slots) keys ∧
+    matchSigs verify (materializeSigs m slots) keys = true := by
+  obtain ⟨h1, h2⟩ := materialize_spec verify m slots keys hok
+  exact ⟨by omega, h2, (matchSigs_iff verify keys _).mpr h2⟩
+
+open BytomModel.Lemmas.Materialize in
+/-- fewer signers than the quorum: the witness has fewer than `m` signatures (and
+    `SignProgress`, which compares `signedCount` with the quorum, is false) -/
+theorem below_quorum_witness_short (verify : BytomModel.VM.Bytes → BytomModel.VM.Bytes → Bool) (m : Nat)
+    (slots keys : List BytomModel.VM.Bytes) (hok : SlotsOK verify slots keys) (hq : signedCount slots < m) :
+    (materializeSigs m slots).length < m := by
+  have := (materialize_spec verify m slots keys hok).1
+  omega
+
+/-- 2-of-3 signed by keys 0 and 2 (the middle holder absent): both signatures reach the witness -/
+example : materializeSigs 2 [[1], [], [3]] = [[1], [3]] := by decide
+/-- 3-of-4 signed by keys 1, 2, 3 -/
+example : materializeSigs 3 [[], [2], [3], [4]] = [[2], [3], [4]] := by decide
+example : BytomModel.Lemmas.Materialize.SlotsOK (fun k s => s == k) [[1], [], [3]] [[1], [2], [3]] := by
+  repeat (first | exact List.Forall₂.nil | apply List.Forall₂.cons) <;> decide
 
 end BytomModel.Props.C27
